@@ -1,13 +1,16 @@
 #!/usr/bin/env python3
 """Self-test of the C harness.
 
-  selftest.py <cdriver> [<rust driver>] [--seed N] [--kernel-calls N]
+  selftest.py <cdriver> [<rust driver>] [--seed=N] [--kernel-calls=N] [--threads-reps=N]
+              [--threads-only=N] [--max-print=N]
 
 1. protocol robustness: malformed lines give bad-op, one output line per input line
 2. C ops against the Rust driver (H new / H upd / H fin / H xof + X setpos + X fill) over many
    lengths, all modes, all feature levels, split updates, finseek, reset, clone, same
 3. C updtbb with every script against C upd
 4. every CK flavour against CK portable on random arguments; no flag may fire
+5. `cdriver --threads`: 16 sections x 50 ops per run, every section's output equal to the
+   single-threaded run of that section (fresh process per repetition)
 Exit status 0 iff everything agrees.
 """
 import random
@@ -275,6 +278,79 @@ def test_kernels_vs_rust(cd, rs, rng):
         check(c == r, "vs Rust: %s: %s / %s" % (ln[:60], c[:40], r[:40]))
 
 
+def gen_section(rng, nops=50):
+    """an op script for one thread of `cdriver --threads`: mixed C and CK ops, own registers"""
+    ops = ["C init a hash"]
+    regs = ["a"]
+    while len(ops) < nops:
+        k = rng.randrange(14)
+        r = rng.choice(regs)
+        if k == 0:
+            nr = rng.choice("abcd")
+            mode = rng.choice(["hash", "keyed " + rhex(rng, 32), "derive " + rhex(rng, rng.randrange(40)).replace("00", "01")])
+            ops.append("C init %s %s" % (nr, mode))
+            if nr not in regs:
+                regs.append(nr)
+        elif k <= 3:
+            n = rng.choice([0, 1, 63, 64, 65, 1023, 1024, 1025, 2048, 4097, 16384, 17000, 65536, 70001, rng.randrange(200000)])
+            ops.append("C upd %s pat %d %d" % (r, n, rng.randrange(1 << 64)))
+        elif k == 4:
+            ops.append("C updtbb %s %s pat %d %d" % (r, rng.choice(["-", "1", "2", "012"]), rng.randrange(150000), rng.randrange(1 << 64)))
+        elif k <= 6:
+            ops.append("C fin %s %d" % (r, rng.choice([0, 1, 32, 64, 65, 200, 1000])))
+        elif k == 7:
+            ops.append("C finseek %s %d %d" % (r, counters(rng), rng.choice([1, 32, 63, 130])))
+        elif k == 8:
+            ops.append(rng.choice(["C reset %s" % r, "C clone %s %s" % (r, rng.choice(regs)), "C same %s %s" % (r, rng.choice(regs))]))
+        elif k <= 10:
+            ops.append("CK %s %s %s %s %d %d %d" % (rng.choice(["cip", "cxof"]), rng.choice(FLAVOURS), rhex(rng, 32), rhex(rng, 64),
+                                                   rng.randrange(65), counters(rng), rng.randrange(256)))
+        elif k <= 12:
+            ops.append("CK hmany %s %d %d %d %s %d %d %d %d %d %d %d" % (
+                rng.choice(FLAVOURS), rng.randrange(35), rng.choice([1, 16]), rng.randrange(1 << 64), rhex(rng, 32),
+                counters(rng), rng.randrange(2), rng.randrange(256), rng.randrange(256), rng.randrange(256),
+                rng.randrange(64), rng.randrange(32)))
+        else:
+            ops.append("CK xofmany %s %s %s %d %d %d %d" % (rng.choice(["avx512_asm", "avx512_c", "sse41_asm"]), rhex(rng, 32), rhex(rng, 64),
+                                                         rng.randrange(65), counters(rng), rng.randrange(256), rng.randrange(1, 20)))
+    return ops
+
+
+def run_threads(exe, text):
+    p = subprocess.run([exe, "--threads"], input=text.encode(), stdout=subprocess.PIPE, stderr=subprocess.PIPE)
+    return p.returncode, p.stdout.decode(), p.stderr.decode()
+
+
+def test_threads(cd, rng, reps, nsec=16):
+    """cdriver --threads: every section's output must equal the single-threaded run of that section"""
+    # structure / edge cases
+    rc, out, err = run_threads(cd, "")
+    check(rc == 0 and out == "" and err == "", "empty input: %r %r" % (out, err))
+    rc, out, err = run_threads(cd, "C feat sse2\nC featmask\n#thread\n#thread\nC feat avx2\nC featmask\n\nfoo\n#thread \nC init a hash\nC fin a 4")
+    check(rc == 0 and out == "ok\n1 4 127\n#thread\n#thread\nbad-op\n1 4 127\n\nbad-op\n#thread\nok\naf1349b9\n" and err == "",
+          "structure: %r %r" % (out, err))
+    rc, out, err = run_threads(cd, "#thread\nC init a hash\n#thread\nC fin a 4\n")
+    check(out == "#thread\nok\n#thread\nbad-op\n", "registers are per thread: %r" % out)
+    n_lines = 0
+    for rep in range(reps):
+        secs = [gen_section(rng) for _ in range(nsec)]
+        pre = [] if rep % 2 == 0 else ["C feat " + rng.choice(LEVELS)]
+        expected = "".join(l + "\n" for l in run(cd, pre)) if pre else ""
+        for sec in secs:
+            o = run(cd, pre + sec)
+            expected += "#thread\n" + "".join(l + "\n" for l in o[len(pre):])
+        text = "".join(l + "\n" for l in pre) + "".join("#thread\n" + "".join(l + "\n" for l in sec) for sec in secs)
+        rc, out, err = run_threads(cd, text)
+        n_lines += text.count("\n")
+        check(rc == 0 and err == "", "threads rep %d: rc %d stderr %s" % (rep, rc, err[:1500]))
+        if out != expected:
+            a, b = out.split("\n"), expected.split("\n")
+            d = [i for i in range(min(len(a), len(b))) if a[i] != b[i]]
+            check(False, "threads rep %d (preamble %s): %d/%d lines; first difference at line %s: %s / %s" % (
+                rep, pre, len(a), len(b), d[:1], a[d[0]][:60] if d else "", b[d[0]][:60] if d else ""))
+    print("  %d repetitions x %d sections, %d input lines in total" % (reps, nsec, n_lines))
+
+
 def main():
     args = [a for a in sys.argv[1:] if not a.startswith("--")]
     opts = dict(a[2:].split("=") for a in sys.argv[1:] if a.startswith("--"))
@@ -284,11 +360,16 @@ def main():
     calls = int(opts.get("kernel-calls", "3000"))
     global MAXPRINT
     MAXPRINT = int(opts.get("max-print", "30"))
+    if "threads-only" in opts:
+        print("threads mode"); test_threads(cd, rng, int(opts["threads-only"]))
+        print("FAILURES: %d" % fails)
+        sys.exit(1 if fails else 0)
     print("protocol"); test_protocol(cd)
     print("C ops vs Rust driver"); test_c_vs_rust(cd, rs, rng)
     print("updtbb"); test_tbb(cd, rng)
     print("kernels"); test_kernels(cd, rng, calls)
     print("kernels vs Rust"); test_kernels_vs_rust(cd, rs, rng)
+    print("threads mode"); test_threads(cd, rng, int(opts.get("threads-reps", "10")))
     print("FAILURES: %d" % fails)
     sys.exit(1 if fails else 0)
 
